@@ -1,1 +1,987 @@
-/- C11 — theorems (placeholder until the property is built). -/
+/-
+  C11 — Cross-based aggregation averages costs over the combined support region.
+
+  Model and specification: `Model/Cbca.lean`.  What the source says now: `Generated/Cbca.lean`
+  (translator/gen_cbca.py: the "minimum 1" rule of `cross_support`, the statements of steps 1–4).
+
+  Theorems (all for unbounded image sizes, any masks, any cost volume, any disparity list):
+
+  1. arms            `armCoded_eq_armRef`, `crossSupport_eq_crossRef` : the four arm loops as coded compute the
+                     declarative arm `armRef` for every `cbca_distance ≥ 2` (and every distance ≥ 1 with the
+                     repaired minimum rule); `armOk_iff` : `armRef` is the unique arm length satisfying the five
+                     sub-clauses stop_masked / stop_distance / stop_intensity / min_one / maximal;
+                     `arms_counterexample_distance_one` : with distance 1 the coded rule crosses a masked pixel.
+  2. prefix sums     `s1At_diff` : S(x + r) − S(x − l − 1) = Σ_{x−l … x+r}, including the `-1 → sentinel` wrap.
+  3. steps           `step2_eq_rowsum`, `step4_eq_colsum`, `step4_eq_regionsum`, `sum4_eq_card`;
+                     `mem_region`, `nodup_region` : the region list is exactly the set of pixels reached by the
+                     vertical arm and then the horizontal arms, each once.
+  4. cells           `aggOut_spec`, `aggOut_isNan`.
+  5. whole step      `crossSupport_in_image`, `cbca_spec`, `cbca_spec_source`, `nan_stays`, `no_new_nan`,
+                     `plane_independent`, `median3_isNan`, `filteredL_isNan`, `filteredR_isNan`.
+
+  Modelled, not verified: IEEE rounding (the theorems are over ℚ), `np.nanmedian`, scipy `zoom` (linear
+  interpolation), numpy slicing.  Hypothesis `nanOutside`: input costs are NaN where the disparity has no
+  facing right column (true of every cost volume the matching-cost step produces; sampled by the harness).
+-/
+import PandoraModel.Model.Cbca
+import PandoraModel.Generated.Cbca
+import Mathlib.Tactic.Ring
+import Mathlib.Tactic.Linarith
+import Mathlib.Data.List.Nodup
+
+namespace Pandora.C11
+open Pandora Pandora.Cbca
+
+/-! ## 1. Arms -/
+
+/-- number of consecutive offsets `k+1, k+2, …` (at most `fuel`) without a jump -/
+def cnt (I : Rat) (px : Nat → Val) : Nat → Nat → Nat
+  | 0, _ => 0
+  | fuel + 1, k => if jump I (px 0) (px (k + 1)) then 0 else 1 + cnt I px fuel (k + 1)
+
+theorem cnt_le (I px) : ∀ fuel k, cnt I px fuel k ≤ fuel := by
+  intro fuel
+  induction fuel with
+  | zero => intro k; simp [cnt]
+  | succ n ih =>
+    intro k
+    unfold cnt
+    split
+    · omega
+    · have := ih (k + 1); omega
+
+theorem cnt_nojump (I px) : ∀ fuel k j, j < cnt I px fuel k → jump I (px 0) (px (k + j + 1)) = false := by
+  intro fuel
+  induction fuel with
+  | zero => intro k j h; simp [cnt] at h
+  | succ n ih =>
+    intro k j h
+    unfold cnt at h
+    split at h
+    · omega
+    · rename_i hj
+      cases j with
+      | zero => simpa using hj
+      | succ j =>
+        have := ih (k + 1) j (by omega)
+        have e : k + 1 + j + 1 = k + (j + 1) + 1 := by omega
+        rw [e] at this; exact this
+
+theorem cnt_stop (I px) : ∀ fuel k, cnt I px fuel k < fuel → jump I (px 0) (px (k + cnt I px fuel k + 1)) = true := by
+  intro fuel
+  induction fuel with
+  | zero => intro k h; simp [cnt] at h
+  | succ n ih =>
+    intro k h
+    unfold cnt at h ⊢
+    split
+    · rename_i hj; simpa using hj
+    · rename_i hj
+      simp only [hj] at h
+      have := ih (k + 1) (by simp at h; omega)
+      have e : k + 1 + cnt I px n (k + 1) + 1 = k + (1 + cnt I px n (k + 1)) + 1 := by omega
+      rw [e] at this; exact this
+
+/-- `cnt` is determined by: no jump before `m`, and a jump at `m` unless the fuel is exhausted -/
+theorem cnt_unique (I px) : ∀ fuel k m, m ≤ fuel → (∀ j, j < m → jump I (px 0) (px (k + j + 1)) = false) →
+    (m < fuel → jump I (px 0) (px (k + m + 1)) = true) → cnt I px fuel k = m := by
+  intro fuel
+  induction fuel with
+  | zero => intro k m h _ _; simp [cnt]; omega
+  | succ n ih =>
+    intro k m hm hno hstop
+    unfold cnt
+    cases m with
+    | zero =>
+      have := hstop (by omega)
+      simp at this
+      simp [this]
+    | succ m =>
+      have h0 := hno 0 (by omega)
+      simp at h0
+      simp only [h0]
+      have := ih (k + 1) m (by omega)
+        (fun j hj => by have := hno (j + 1) (by omega); rw [show k + (j + 1) + 1 = k + 1 + j + 1 by omega] at this; exact this)
+        (fun hlt => by have := hstop (by omega); rw [show k + (m + 1) + 1 = k + 1 + m + 1 by omega] at this; exact this)
+      simp [this]; omega
+
+theorem armLoop_eq (I px) : ∀ fuel k, armLoop I px fuel k =
+    (k + cnt I px fuel k, if cnt I px fuel k < fuel then k + cnt I px fuel k + 1 else k + cnt I px fuel k) := by
+  intro fuel
+  induction fuel with
+  | zero => intro k; simp [armLoop, cnt]
+  | succ n ih =>
+    intro k
+    unfold armLoop cnt
+    split
+    · simp
+    · rw [ih (k + 1)]
+      have := cnt_le I px n (k + 1)
+      ext
+      · simp; omega
+      · simp only
+        split <;> split <;> omega
+
+theorem takeWhile_range_length (I px) :
+    ∀ n k, ((List.range n).takeWhile (fun j => !jump I (px 0) (px (j + k + 1)))).length = cnt I px n k := by
+  intro n
+  induction n with
+  | zero => intro k; simp [cnt]
+  | succ n ih =>
+    intro k
+    rw [List.range_succ_eq_map, List.takeWhile_cons]
+    unfold cnt
+    by_cases hj : jump I (px 0) (px (k + 1)) = true
+    · simp [hj]
+    · simp only [Bool.not_eq_true] at hj
+      simp only [Nat.zero_add, hj, Bool.not_false, ↓reduceIte, List.length_cons, Bool.false_eq_true]
+      rw [List.takeWhile_map, List.length_map]
+      have := ih (k + 1)
+      have e : ((fun j => !jump I (px 0) (px (j + k + 1))) ∘ Nat.succ) = (fun j => !jump I (px 0) (px (j + (k + 1) + 1))) := by
+        funext j; simp [Function.comp]; congr 2; omega
+      rw [e, this]; omega
+
+theorem runLen_eq_cnt (I px n) : runLen I px n = cnt I px n 0 := by
+  unfold runLen
+  have := takeWhile_range_length I px n 0
+  simpa using this
+
+
+/-! ### the arms as coded are the specified arms -/
+
+theorem jump_nan_right (I : Rat) (a b : Val) (h : b.isNum = false) : jump I a b = true := by
+  cases a <;> cases b <;> simp_all [jump, Val.isNum, Val.isNan]
+
+theorem armCoded_eq_armRef (mr : MinRule) (I : Rat) (px : Nat → Val) (dist room : Nat)
+    (h : mr = .neighbour ∨ 2 ≤ dist) (h0 : (px 0).isNum = true) :
+    armCoded mr I px dist room = armRef I px dist room := by
+  unfold armCoded armRef iters
+  rw [armLoop_eq, runLen_eq_cnt]
+  simp only [h0, ↓reduceIte, Nat.zero_add]
+  generalize hn : min (dist - 1) room = n
+  have hle := cnt_le I px n 0
+  rcases h with h | h
+  · subst h; rfl
+  · cases mr with
+    | neighbour => rfl
+    | loopVar =>
+      simp only
+      by_cases hr : 1 ≤ room
+      · have hn1 : 1 ≤ n := by omega
+        by_cases hc : cnt I px n 0 = 0
+        · -- the loop broke at the first neighbour: the loop variable is the neighbour
+          simp [hc, show 0 < n by omega]
+        · -- at least one pixel was accepted: the minimum rule adds nothing on either side
+          have hc1 : 1 ≤ cnt I px n 0 := by omega
+          have e1 : ∀ b : Bool, max (cnt I px n 0) (if b then 1 else 0) = cnt I px n 0 := by
+            intro b; cases b <;> simp; omega
+          rw [e1, e1]
+      · simp [hr]
+
+theorem crossSupport_eq_crossRef (mr : MinRule) (H W dist : Nat) (I : Rat) (img : Img)
+    (h : mr = .neighbour ∨ 2 ≤ dist) (y x : Nat) :
+    crossSupport mr H W dist I img y x = crossRef H W dist I img y x := by
+  unfold crossSupport crossRef
+  by_cases h0 : (img y x).isNum = true
+  · simp only [h0, ↓reduceIte]
+    have e1 := armCoded_eq_armRef mr I (fun k => img y (x - k)) dist x h (by simpa using h0)
+    have e2 := armCoded_eq_armRef mr I (fun k => img y (x + k)) dist (W - 1 - x) h (by simpa using h0)
+    have e3 := armCoded_eq_armRef mr I (fun k => img (y - k) x) dist y h (by simpa using h0)
+    have e4 := armCoded_eq_armRef mr I (fun k => img (y + k) x) dist (H - 1 - y) h (by simpa using h0)
+    rw [e1, e2, e3, e4]
+  · simp only [h0, Bool.false_eq_true, ↓reduceIte]
+    simp [armRef, h0]
+
+/-- With `cbca_distance = 1` the arm loops never run and the rule as coded (`loopVar`) tests the anchor
+    itself: row `[1, 1, masked, 1, 1]`, anchor at column 1, right arm: 1 as coded, 0 as specified. -/
+def f9Row : Img := fun _ x => if x = 2 then .nan else .num 1
+
+theorem arms_counterexample_distance_one :
+    (crossSupport .loopVar 1 5 1 5 f9Row 0 1).right = 1 ∧ (crossRef 1 5 1 5 f9Row 0 1).right = 0
+    ∧ (crossSupport .neighbour 1 5 1 5 f9Row 0 1).right = 0 := by decide
+
+
+/-! ### the declarative arm is characterised by the five sub-clauses -/
+
+theorem nojump_isNum (I : Rat) (a b : Val) (h : jump I a b = false) : b.isNum = true := by
+  cases a <;> cases b <;> simp_all [jump, Val.isNum, Val.isNan]
+
+theorem armRef_ok (I : Rat) (px : Nat → Val) (dist room : Nat) :
+    armOk I px dist room (armRef I px dist room) = true := by
+  unfold armOk armRef armMaximal
+  rw [runLen_eq_cnt]
+  generalize hn : min (dist - 1) room = n
+  by_cases h0 : (px 0).isNum = true
+  · simp only [h0, ↓reduceIte]
+    generalize hc : cnt I px n 0 = c
+    have hle : c ≤ n := hc ▸ cnt_le I px n 0
+    have hno : ∀ j, j < c → jump I (px 0) (px (j + 1)) = false := by
+      intro j hj; have := cnt_nojump I px n 0 j (hc ▸ hj); simpa using this
+    have hstop : c < n → jump I (px 0) (px (c + 1)) = true := by
+      intro h; have := cnt_stop I px n 0 (hc ▸ h); simpa [hc] using this
+    generalize hb : (decide (1 ≤ room) && (px 1).isNum) = b
+    cases b with
+    | false =>
+      have hL : max c (if false = true then 1 else 0) = c := by simp
+      rw [hL]
+      simp only [armStopMasked, armStopDistance, armStopIntensity, armMinOne, h0, ↓reduceIte,
+        Bool.and_eq_true, Bool.or_eq_true, decide_eq_true_eq, List.all_eq_true, List.mem_range, Bool.not_eq_true',
+        Bool.not_true, Bool.false_eq_true, false_or]
+      refine ⟨⟨⟨⟨⟨by omega, fun j hj => nojump_isNum I _ _ (hno j hj)⟩, by omega⟩, ?_⟩, ?_⟩, ?_⟩
+      · by_cases h1 : c ≤ 1
+        · exact Or.inl h1
+        · exact Or.inr (fun j hj => by simp [hno j hj])
+      · by_cases hc1 : 1 ≤ c
+        · exact Or.inr hc1
+        · left
+          have : (decide (1 ≤ room) && (px 1).isNum) = false := hb
+          simpa [h0] using this
+      · by_cases hlt : c < n
+        · right
+          have hs := hstop hlt
+          by_cases hc0 : c = 0
+          · subst hc0; simpa using hs
+          · by_cases hc1 : c = 1
+            · subst hc1; simp; right; simpa using hs
+            · simp [hc0, hc1, hs]
+        · left; simpa using hlt
+    | true =>
+      have hb' : 1 ≤ room ∧ (px 1).isNum = true := by simpa using hb
+      by_cases hc0 : c = 0
+      · subst hc0
+        have hL : max 0 (if true = true then 1 else 0) = 1 := by simp
+        rw [hL]
+        simp only [armStopMasked, armStopDistance, armStopIntensity, armMinOne, h0, ↓reduceIte,
+          Bool.and_eq_true, Bool.or_eq_true, decide_eq_true_eq, List.all_eq_true, List.mem_range, Bool.not_eq_true',
+          Bool.not_true, Bool.false_eq_true, false_or]
+        refine ⟨⟨⟨⟨⟨hb'.1, fun j hj => ?_⟩, by omega⟩, Or.inl (by omega)⟩, Or.inr (by omega)⟩, ?_⟩
+        · have : j = 0 := by omega
+          subst this; simpa using hb'.2
+        · by_cases hlt : 1 < n
+          · right
+            have := hstop (by omega)
+            simp at this
+            simp [this]
+          · left; simpa using hlt
+      · have hL : max c (if true = true then 1 else 0) = c := by simp; omega
+        rw [hL]
+        simp only [armStopMasked, armStopDistance, armStopIntensity, armMinOne, h0, ↓reduceIte,
+          Bool.and_eq_true, Bool.or_eq_true, decide_eq_true_eq, List.all_eq_true, List.mem_range, Bool.not_eq_true',
+          Bool.not_true, Bool.false_eq_true, false_or]
+        refine ⟨⟨⟨⟨⟨by omega, fun j hj => nojump_isNum I _ _ (hno j hj)⟩, by omega⟩, ?_⟩, Or.inr (by omega)⟩, ?_⟩
+        · by_cases h1 : c ≤ 1
+          · exact Or.inl h1
+          · exact Or.inr (fun j hj => by simp [hno j hj])
+        · by_cases hlt : c < n
+          · right
+            have hs := hstop hlt
+            by_cases hc1 : c = 1
+            · subst hc1; simp; right; simpa using hs
+            · simp [hc0, hc1, hs]
+          · left; simpa using hlt
+  · have h0' : (px 0).isNum = false := by simpa using h0
+    simp [h0', armStopMasked, armStopDistance, armStopIntensity, armMinOne]
+
+
+theorem armOk_unique (I : Rat) (px : Nat → Val) (dist room L : Nat)
+    (h : armOk I px dist room L = true) : L = armRef I px dist room := by
+  unfold armOk armMaximal at h
+  unfold armRef
+  rw [runLen_eq_cnt]
+  generalize hn : min (dist - 1) room = n at h ⊢
+  by_cases h0 : (px 0).isNum = true
+  · simp only [armStopMasked, armStopDistance, armStopIntensity, armMinOne, h0, ↓reduceIte,
+      Bool.and_eq_true, Bool.or_eq_true, decide_eq_true_eq, List.all_eq_true, List.mem_range, Bool.not_eq_true',
+      Bool.not_true, Bool.false_eq_true, false_or, Bool.true_and] at h
+    obtain ⟨⟨⟨⟨⟨hroom, hnum⟩, hdist⟩, hint⟩, hmin⟩, hmax⟩ := h
+    simp only [h0, ↓reduceIte]
+    have hmax' : L < n → (if L = 0 then jump I (px 0) (px 1)
+        else if L = 1 then jump I (px 0) (px 1) || jump I (px 0) (px 2) else jump I (px 0) (px (L + 1))) = true := by
+      intro hlt
+      rcases hmax with hmax | hmax
+      · simp at hmax; omega
+      · exact hmax
+    by_cases hL0 : L = 0
+    · subst hL0
+      have hb : (decide (1 ≤ room) && (px 1).isNum) = false := by
+        rcases hmin with hmin | hmin
+        · simpa using hmin
+        · omega
+      have hc : cnt I px n 0 = 0 := by
+        apply cnt_unique I px n 0 0 (by omega) (fun j hj => by omega)
+        intro hlt
+        have := hmax' hlt
+        simpa using this
+      simp [hb, hc]
+    · by_cases hL1 : L = 1
+      · subst hL1
+        have hb : (decide (1 ≤ room) && (px 1).isNum) = true := by
+          have := hnum 0 (by omega)
+          simp at this
+          simp [this]; omega
+        have hc : cnt I px n 0 ≤ 1 := by
+          by_contra hgt
+          have hgt : 2 ≤ cnt I px n 0 := by omega
+          have hle := cnt_le I px n 0
+          have j1 := cnt_nojump I px n 0 0 (by omega)
+          have j2 := cnt_nojump I px n 0 1 (by omega)
+          have := hmax' (by omega)
+          simp at j1 j2
+          simp [j1, j2] at this
+        simp only [hb, ↓reduceIte]
+        omega
+      · have hL2 : 2 ≤ L := by omega
+        have hLn : L ≤ n := by omega
+        have hnj : ∀ j, j < L → jump I (px 0) (px (0 + j + 1)) = false := by
+          intro j hj
+          rcases hint with hint | hint
+          · omega
+          · have := hint j hj; simpa using this
+        have hc : cnt I px n 0 = L := by
+          apply cnt_unique I px n 0 L hLn hnj
+          intro hlt
+          have := hmax' hlt
+          simpa [hL0, hL1] using this
+        rw [hc]
+        split <;> omega
+  · have h0' : (px 0).isNum = false := by simpa using h0
+    simp only [armStopMasked, h0', Bool.false_eq_true, ↓reduceIte, Bool.and_eq_true, decide_eq_true_eq, beq_iff_eq] at h
+    simp [h0']
+    omega
+
+theorem armOk_iff (I : Rat) (px : Nat → Val) (dist room L : Nat) :
+    armOk I px dist room L = true ↔ L = armRef I px dist room :=
+  ⟨armOk_unique I px dist room L, fun h => h ▸ armRef_ok I px dist room⟩
+
+/-! ## 2–4. Prefix sums, steps, cells -/
+
+/-! ### prefix sums -/
+
+/-- `Σ_{i < n} f (a + i)` -/
+def sumRange (f : Nat → Rat) (a : Nat) : Nat → Rat
+  | 0 => 0
+  | n + 1 => sumRange f a n + f (a + n)
+
+theorem sumRange_split (f : Nat → Rat) (a m : Nat) : ∀ n, sumRange f a (m + n) = sumRange f a m + sumRange f (a + m) n := by
+  intro n
+  induction n with
+  | zero => simp [sumRange]
+  | succ n ih =>
+    rw [← Nat.add_assoc]
+    simp only [sumRange, ih]
+    rw [Nat.add_assoc a m n]
+    ring
+
+theorem sumRange_congr (f g : Nat → Rat) (a : Nat) : ∀ n, (∀ i, i < n → f (a + i) = g (a + i)) → sumRange f a n = sumRange g a n := by
+  intro n
+  induction n with
+  | zero => intro _; rfl
+  | succ n ih =>
+    intro h
+    simp only [sumRange]
+    rw [ih (fun i hi => h i (by omega)), h n (by omega)]
+
+theorem step1_eq (row : Nat → Val) : ∀ k, step1 row k = sumRange (fun x => c0 (row x)) 0 (k + 1) := by
+  intro k
+  induction k with
+  | zero => simp [step1, sumRange]
+  | succ k ih => simp only [step1, ih, sumRange]; simp
+
+/-- reading the integral image at `x + r` (inside) -/
+theorem s1At_hi (W : Nat) (row : Nat → Val) (x r : Nat) (h : x + r < W) :
+    s1At W row ((x : Int) + (r : Int)) = step1 row (x + r) := by
+  unfold s1At
+  have h1 : ¬ ((x : Int) + (r : Int) < 0) := by omega
+  simp only [h1, ↓reduceIte]
+  have h2 : (0 : Int) ≤ (x : Int) + (r : Int) ∧ (x : Int) + (r : Int) < (W : Int) := by omega
+  simp only [h2, and_self, ↓reduceIte]
+  congr 1
+
+/-- reading the integral image at `x - l - 1`: index `-1` wraps to the zero sentinel column -/
+theorem s1At_lo (W : Nat) (row : Nat → Val) (x l : Nat) (hl : l ≤ x) (hx : x < W) :
+    s1At W row ((x : Int) - (l : Int) - 1) = if l = x then 0 else step1 row (x - l - 1) := by
+  unfold s1At
+  by_cases h : l = x
+  · subst h
+    have h1 : ((l : Int) - (l : Int) - 1 < 0) := by omega
+    simp only [h1, ↓reduceIte]
+    have h2 : ¬ ((0 : Int) ≤ (l : Int) - (l : Int) - 1 + ((W : Int) + 1) ∧ (l : Int) - (l : Int) - 1 + ((W : Int) + 1) < (W : Int)) := by omega
+    simp
+  · have h1 : ¬ ((x : Int) - (l : Int) - 1 < 0) := by omega
+    simp only [h1, ↓reduceIte, h]
+    have h2 : (0 : Int) ≤ (x : Int) - (l : Int) - 1 ∧ (x : Int) - (l : Int) - 1 < (W : Int) := by omega
+    simp only [h2, and_self, ↓reduceIte]
+    congr 1
+    omega
+
+/-- the prefix-sum identity behind step 2: `S(x + r) − S(x − l − 1) = Σ_{x' = x − l}^{x + r} f x'` -/
+theorem s1At_diff (W : Nat) (row : Nat → Val) (x l r : Nat) (hl : l ≤ x) (hr : x + r < W) :
+    s1At W row ((x : Int) + (r : Int)) - s1At W row ((x : Int) - (l : Int) - 1)
+      = sumRange (fun x' => c0 (row x')) (x - l) (l + r + 1) := by
+  rw [s1At_hi W row x r hr, s1At_lo W row x l hl (by omega), step1_eq]
+  by_cases h : l = x
+  · subst h
+    simp only [↓reduceIte, Nat.sub_self]
+    rw [show l + r + 1 = l + r + 1 from rfl]
+    ring_nf
+  · simp only [h, ↓reduceIte]
+    rw [step1_eq]
+    have e : x + r + 1 = (x - l - 1 + 1) + (l + r + 1) := by omega
+    rw [e, sumRange_split]
+    have e2 : 0 + (x - l - 1 + 1) = x - l := by omega
+    rw [e2]
+    ring
+
+
+/-! ### steps 2–4 -/
+
+/-- arms of one pixel inside the image -/
+def ArmsIn (H W : Nat) (a : Arms) (y x : Nat) : Prop := a.left ≤ x ∧ x + a.right < W ∧ a.top ≤ y ∧ y + a.bot < H
+
+theorem armsInImage_spec {H W : Nat} {arms : Nat → Nat → Arms} (h : armsInImage H W arms = true)
+    {y x : Nat} (hy : y < H) (hx : x < W) : ArmsIn H W (arms y x) y x := by
+  unfold armsInImage at h
+  simp only [List.all_eq_true, List.mem_range, Bool.and_eq_true, decide_eq_true_eq] at h
+  have := h y hy x hx
+  exact ⟨this.1.1.1, this.1.1.2, this.1.2, this.2⟩
+
+theorem comb_some {P : Plane} {y x : Nat} {a : Arms} (h : comb P y x = some a) :
+    ∃ xr, rightCol P.d P.Wr x = some xr ∧
+      a = ⟨min (P.armsL y x).left (P.armsR y xr).left, min (P.armsL y x).right (P.armsR y xr).right,
+           min (P.armsL y x).top (P.armsR y xr).top, min (P.armsL y x).bot (P.armsR y xr).bot⟩ := by
+  unfold comb at h
+  split at h
+  · cases h
+  · rename_i xr hxr
+    exact ⟨xr, hxr, by simpa using h.symm⟩
+
+/-- the facing column depends on the column only: every pixel of column `x` is visited when one is -/
+theorem comb_isSome_col {P : Plane} {y x : Nat} {a : Arms} (h : comb P y x = some a) (y' : Nat) :
+    ∃ a', comb P y' x = some a' := by
+  obtain ⟨xr, hxr, _⟩ := comb_some h
+  unfold comb
+  simp [hxr]
+
+theorem comb_in {P : Plane} {y x : Nat} {a : Arms} (h : comb P y x = some a)
+    (hin : ArmsIn P.H P.W (P.armsL y x) y x) : ArmsIn P.H P.W a y x := by
+  obtain ⟨xr, _, rfl⟩ := comb_some h
+  obtain ⟨h1, h2, h3, h4⟩ := hin
+  refine ⟨?_, ?_, ?_, ?_⟩ <;> simp only <;> omega
+
+/-- `step2_eq_rowsum`: step 2 is the sum of the computable costs of row `y` over the combined horizontal arm -/
+theorem step2_eq_rowsum (P : Plane) (y x : Nat) (a : Arms) (h : comb P y x = some a)
+    (hl : a.left ≤ x) (hr : x + a.right < P.W) :
+    step2 P y x = sumRange (fun x' => c0 (P.cv y x')) (x - a.left) (a.left + a.right + 1) := by
+  unfold step2
+  simp only [h]
+  exact s1At_diff P.W (P.cv y) x a.left a.right hl hr
+
+theorem step3_eq (P : Plane) (x : Nat) : ∀ y, step3 P x y = sumRange (fun y' => step2 P y' x) 0 (y + 1) := by
+  intro y
+  induction y with
+  | zero => simp [step3, sumRange]
+  | succ y ih => simp only [step3, ih, sumRange]; simp
+
+theorem s3At_hi (P : Plane) (x y b : Nat) (h : y + b < P.H) :
+    s3At P x ((y : Int) + (b : Int)) = step3 P x (y + b) := by
+  unfold s3At
+  have h1 : ¬ ((y : Int) + (b : Int) < 0) := by omega
+  simp only [h1, ↓reduceIte]
+  have h2 : (0 : Int) ≤ (y : Int) + (b : Int) ∧ (y : Int) + (b : Int) < (P.H : Int) := by omega
+  simp only [h2, and_self, ↓reduceIte]
+  congr 1
+
+theorem s3At_lo (P : Plane) (x y t : Nat) (ht : t ≤ y) (hy : y < P.H) :
+    s3At P x ((y : Int) - (t : Int) - 1) = if t = y then 0 else step3 P x (y - t - 1) := by
+  unfold s3At
+  by_cases h : t = y
+  · subst h
+    have h1 : ((t : Int) - (t : Int) - 1 < 0) := by omega
+    simp only [h1, ↓reduceIte]
+    simp
+  · have h1 : ¬ ((y : Int) - (t : Int) - 1 < 0) := by omega
+    simp only [h1, ↓reduceIte, h]
+    have h2 : (0 : Int) ≤ (y : Int) - (t : Int) - 1 ∧ (y : Int) - (t : Int) - 1 < (P.H : Int) := by omega
+    simp only [h2, and_self, ↓reduceIte]
+    congr 1
+    omega
+
+/-- step 4 is the sum of step 2 over the combined vertical arm -/
+theorem step4_eq_colsum (P : Plane) (y x : Nat) (a : Arms) (h : comb P y x = some a)
+    (ht : a.top ≤ y) (hb : y + a.bot < P.H) :
+    step4 P y x = sumRange (fun y' => step2 P y' x) (y - a.top) (a.top + a.bot + 1) := by
+  unfold step4
+  simp only [h]
+  rw [s3At_hi P x y a.bot hb, s3At_lo P x y a.top ht (by omega), step3_eq]
+  by_cases h' : a.top = y
+  · simp only [h', ↓reduceIte, Nat.sub_self]
+    ring_nf
+  · simp only [h', ↓reduceIte]
+    rw [step3_eq]
+    have e : y + a.bot + 1 = (y - a.top - 1 + 1) + (a.top + a.bot + 1) := by omega
+    rw [e, sumRange_split]
+    have e2 : 0 + (y - a.top - 1 + 1) = y - a.top := by omega
+    rw [e2]
+    ring
+
+
+/-! ### the region as a list of pixels -/
+
+theorem sum_map_range (f : Nat → Rat) (a : Nat) : ∀ n, ((List.range n).map (fun j => f (a + j))).sum = sumRange f a n := by
+  intro n
+  induction n with
+  | zero => simp [sumRange]
+  | succ n ih => rw [List.range_succ, List.map_append, List.sum_append, ih]; simp [sumRange]
+
+theorem sum_flatMap_range {α : Type} (F : Nat → List α) (g : α → Rat) :
+    ∀ n, (((List.range n).flatMap F).map g).sum = sumRange (fun i => ((F i).map g).sum) 0 n := by
+  intro n
+  induction n with
+  | zero => simp [sumRange]
+  | succ n ih => rw [List.range_succ, List.flatMap_append, List.map_append, List.sum_append, ih]; simp [sumRange]
+
+theorem length_flatMap_range {α : Type} (F : Nat → List α) :
+    ∀ n, ((List.range n).flatMap F).length = sumRangeN (fun i => (F i).length) 0 n := by
+  intro n
+  induction n with
+  | zero => simp [sumRangeN]
+  | succ n ih => rw [List.range_succ, List.flatMap_append, List.length_append, ih]; simp [sumRangeN]
+
+theorem sumRange_shift (f : Nat → Rat) (a : Nat) : ∀ n, sumRange (fun i => f (a + i)) 0 n = sumRange f a n := by
+  intro n
+  induction n with
+  | zero => rfl
+  | succ n ih => simp only [sumRange, ih]; simp
+
+theorem sumRangeN_shift (f : Nat → Nat) (a : Nat) : ∀ n, sumRangeN (fun i => f (a + i)) 0 n = sumRangeN f a n := by
+  intro n
+  induction n with
+  | zero => rfl
+  | succ n ih => simp only [sumRangeN, ih]; simp
+
+theorem sumRangeN_split (f : Nat → Nat) (a m : Nat) : ∀ n, sumRangeN f a (m + n) = sumRangeN f a m + sumRangeN f (a + m) n := by
+  intro n
+  induction n with
+  | zero => simp [sumRangeN]
+  | succ n ih =>
+    rw [← Nat.add_assoc]
+    simp only [sumRangeN, ih]
+    rw [Nat.add_assoc a m n]
+    omega
+
+theorem sumRangeN_congr (f g : Nat → Nat) (a : Nat) : ∀ n, (∀ i, i < n → f (a + i) = g (a + i)) → sumRangeN f a n = sumRangeN g a n := by
+  intro n
+  induction n with
+  | zero => intro _; rfl
+  | succ n ih =>
+    intro h
+    simp only [sumRangeN]
+    rw [ih (fun i hi => h i (by omega)), h n (by omega)]
+
+/-- the sum of any function over the region, as nested sums: rows of the vertical arm, then each row's
+    horizontal arm -/
+theorem sum_region (g : Nat × Nat → Rat) (top bot : Nat) (l r : Nat → Nat) (y x : Nat) :
+    ((region top bot l r y x).map g).sum
+      = sumRange (fun y' => sumRange (fun x' => g (y', x')) (x - l y') (l y' + r y' + 1)) (y - top) (top + bot + 1) := by
+  unfold region
+  rw [sum_flatMap_range]
+  rw [← sumRange_shift (fun y' => sumRange (fun x' => g (y', x')) (x - l y') (l y' + r y' + 1)) (y - top)]
+  apply sumRange_congr
+  intro i _
+  simp only [Nat.zero_add, List.map_map]
+  exact sum_map_range (fun x' => g (y - top + i, x')) (x - l (y - top + i)) _
+
+/-- the number of pixels of the region -/
+theorem length_region (top bot : Nat) (l r : Nat → Nat) (y x : Nat) :
+    (region top bot l r y x).length = sumRangeN (fun y' => l y' + r y' + 1) (y - top) (top + bot + 1) := by
+  unfold region
+  rw [length_flatMap_range]
+  rw [← sumRangeN_shift (fun y' => l y' + r y' + 1) (y - top)]
+  apply sumRangeN_congr
+  intro i _
+  simp
+
+/-- membership: the region is exactly the set of pixels reached by the vertical arm and then the horizontal arms -/
+theorem mem_region (top bot : Nat) (l r : Nat → Nat) (y x : Nat) (ht : top ≤ y) (hl : ∀ y', l y' ≤ x) (q : Nat × Nat) :
+    q ∈ region top bot l r y x ↔
+      (y - top ≤ q.1 ∧ q.1 ≤ y + bot) ∧ (x - l q.1 ≤ q.2 ∧ q.2 ≤ x + r q.1) := by
+  unfold region
+  simp only [List.mem_flatMap, List.mem_range, List.mem_map]
+  constructor
+  · rintro ⟨i, hi, j, hj, rfl⟩
+    have := hl (y - top + i)
+    simp only
+    omega
+  · rintro ⟨⟨h1, h2⟩, h3, h4⟩
+    obtain ⟨q1, q2⟩ := q
+    simp only at h1 h2 h3 h4
+    have hq := hl q1
+    refine ⟨q1 - (y - top), by omega, q2 - (x - l q1), ?_, ?_⟩
+    · have : y - top + (q1 - (y - top)) = q1 := by omega
+      rw [this]; omega
+    · have : y - top + (q1 - (y - top)) = q1 := by omega
+      rw [this]
+      congr 1
+      omega
+
+/-- no pixel is listed twice -/
+theorem nodup_region (top bot : Nat) (l r : Nat → Nat) (y x : Nat) : (region top bot l r y x).Nodup := by
+  unfold region
+  rw [List.nodup_flatMap]
+  constructor
+  · intro i _
+    apply List.Nodup.map
+    · intro a b hab
+      simp only [Prod.mk.injEq, true_and] at hab
+      omega
+    · exact List.nodup_range
+  · apply List.Pairwise.imp _ (List.nodup_range (n := top + bot + 1))
+    intro i j hij
+    simp only [Function.onFun, List.disjoint_left, List.mem_map, List.mem_range]
+    rintro q ⟨a, _, rfl⟩ ⟨b, _, hb⟩
+    simp only [Prod.mk.injEq] at hb
+    omega
+
+
+/-! ### step 4 is the region sum, `sum4` is the region size -/
+
+theorem hLeft_of_comb {P : Plane} {x y' : Nat} {a' : Arms} (h : comb P y' x = some a') : hLeft P x y' = a'.left := by
+  simp [hLeft, h]
+
+theorem hRight_of_comb {P : Plane} {x y' : Nat} {a' : Arms} (h : comb P y' x = some a') : hRight P x y' = a'.right := by
+  simp [hRight, h]
+
+theorem sum2_eq (P : Plane) (x y' : Nat) : sum2 P y' x = hRight P x y' + hLeft P x y' := by
+  unfold sum2 hRight hLeft
+  cases comb P y' x <;> simp
+
+/-- `step4_eq_regionsum`: step 4 = sum of the computable costs over the combined support region -/
+theorem step4_eq_regionsum (P : Plane) (hA : armsInImage P.H P.W P.armsL = true) (y x : Nat) (hy : y < P.H) (hx : x < P.W)
+    (a : Arms) (h : comb P y x = some a) : step4 P y x = specSum P y x := by
+  have hin := comb_in h (armsInImage_spec hA hy hx)
+  obtain ⟨_, _, ht, hb⟩ := hin
+  unfold specSum regionOf
+  simp only [h]
+  rw [sum_region (fun q => c0 (P.cv q.1 q.2)), step4_eq_colsum P y x a h ht hb]
+  apply sumRange_congr
+  intro i hi
+  have hy' : y - a.top + i < P.H := by omega
+  obtain ⟨a', ha'⟩ := comb_isSome_col h (y - a.top + i)
+  have hin' := comb_in ha' (armsInImage_spec hA hy' hx)
+  rw [step2_eq_rowsum P _ x a' ha' hin'.1 hin'.2.1, hLeft_of_comb ha', hRight_of_comb ha']
+
+theorem sumRangeN_add_one (f : Nat → Nat) (a : Nat) : ∀ n, sumRangeN (fun i => f i + 1) a n = sumRangeN f a n + n := by
+  intro n
+  induction n with
+  | zero => rfl
+  | succ n ih => simp only [sumRangeN, ih]; omega
+
+theorem sumRangeN_one (f : Nat → Nat) (a : Nat) : sumRangeN f a 1 = f a := by
+  simp [sumRangeN]
+
+/-- `sum4_eq_card`: the divisor is the number of pixels of the region -/
+theorem sum4_eq_card (P : Plane) (hA : armsInImage P.H P.W P.armsL = true) (y x : Nat) (hy : y < P.H) (hx : x < P.W)
+    (a : Arms) (h : comb P y x = some a) : sum4 P y x = specCount P y x := by
+  have hin := comb_in h (armsInImage_spec hA hy hx)
+  obtain ⟨_, _, ht, _⟩ := hin
+  unfold specCount regionOf
+  simp only [h]
+  rw [length_region]
+  have e : (fun y' => hLeft P x y' + hRight P x y' + 1) = (fun y' => sum2 P y' x + 1) := by
+    funext y'; rw [sum2_eq]; omega
+  rw [e, sumRangeN_add_one]
+  have e2 : a.top + a.bot + 1 = a.top + (1 + a.bot) := by omega
+  rw [e2, sumRangeN_split, sumRangeN_split, sumRangeN_one]
+  have e3 : y - a.top + a.top = y := by omega
+  rw [e3]
+  unfold sum4
+  simp only [h]
+  have e4 : (if a.top ≠ 0 then sumRangeN (fun y' => sum2 P y' x) (y - a.top) a.top else 0)
+      = sumRangeN (fun y' => sum2 P y' x) (y - a.top) a.top := by
+    by_cases h0 : a.top = 0
+    · simp [h0, sumRangeN]
+    · simp [h0]
+  have e5 : (if a.bot ≠ 0 then sumRangeN (fun y' => sum2 P y' x) (y + 1) a.bot else 0)
+      = sumRangeN (fun y' => sum2 P y' x) (y + 1) a.bot := by
+    by_cases h0 : a.bot = 0
+    · simp [h0, sumRangeN]
+    · simp [h0]
+  rw [e4, e5]
+  ring
+
+theorem sum4_pos (P : Plane) (y x : Nat) : sum4 P y x ≠ 0 := by
+  unfold sum4; omega
+
+theorem valEq_refl (v : Val) : valEq v v = true := by
+  cases v <;> simp [valEq]
+
+/-- NaN stays NaN and nothing else becomes NaN — for every plane, with no hypothesis -/
+theorem aggOut_isNan (P : Plane) (y x : Nat) : (aggOut P y x).isNan = (P.cv y x).isNan := by
+  unfold aggOut
+  cases hcv : P.cv y x with
+  | nan => rfl
+  | num q => simp [fdiv, sum4_pos, Val.isNan]
+
+/-- **Main theorem for one disparity plane.**  If the left arms stay inside the image and costs are NaN where
+    the disparity has no facing right column, then every cell of the aggregated plane satisfies the property:
+    NaN stays NaN, any other cost becomes (sum of the non-NaN costs over the region) / (size of the region). -/
+theorem aggOut_spec (P : Plane) (hA : armsInImage P.H P.W P.armsL = true) (hN : nanOutside P = true)
+    (y x : Nat) (hy : y < P.H) (hx : x < P.W) : specCell P y x (aggOut P y x) = true := by
+  unfold specCell aggOut
+  cases hcv : P.cv y x with
+  | nan => rfl
+  | num q =>
+    simp only
+    cases hc : comb P y x with
+    | none =>
+      exfalso
+      unfold nanOutside at hN
+      simp only [List.all_eq_true, List.mem_range, Bool.or_eq_true] at hN
+      have := hN y hy x hx
+      unfold comb at hc
+      rcases this with h1 | h1
+      · cases hr : rightCol P.d P.Wr x with
+        | none => simp [hr] at h1
+        | some xr => simp [hr] at hc
+      · simp [hcv, Val.isNan] at h1
+    | some a =>
+      rw [← step4_eq_regionsum P hA y x hy hx a hc, ← sum4_eq_card P hA y x hy hx a hc]
+      simp only [fdiv, sum4_pos, ↓reduceIte, Rat.zero_add]
+      exact valEq_refl _
+
+/-! ## 5. The whole step -/
+
+/-! ### the arms as coded stay inside the image -/
+
+theorem armCoded_le_room (mr : MinRule) (I : Rat) (px : Nat → Val) (dist room : Nat) :
+    armCoded mr I px dist room ≤ room := by
+  unfold armCoded iters
+  rw [armLoop_eq]
+  have := cnt_le I px (min (dist - 1) room) 0
+  simp only [Nat.zero_add]
+  by_cases hr : 1 ≤ room
+  · generalize (decide (1 ≤ room) && _) = b
+    cases b <;> simp <;> omega
+  · simp [hr]; omega
+
+theorem crossSupport_in_image (mr : MinRule) (H W dist : Nat) (I : Rat) (img : Img) :
+    armsInImage H W (crossSupport mr H W dist I img) = true := by
+  unfold armsInImage
+  simp only [List.all_eq_true, List.mem_range, Bool.and_eq_true, decide_eq_true_eq]
+  intro y hy x hx
+  unfold crossSupport
+  by_cases h0 : (img y x).isNum = true
+  · simp only [h0, ↓reduceIte]
+    have h1 := armCoded_le_room mr I (fun k => img y (x - k)) dist x
+    have h2 := armCoded_le_room mr I (fun k => img y (x + k)) dist (W - 1 - x)
+    have h3 := armCoded_le_room mr I (fun k => img (y - k) x) dist y
+    have h4 := armCoded_le_room mr I (fun k => img (y + k) x) dist (H - 1 - y)
+    refine ⟨⟨⟨h1, ?_⟩, h3⟩, ?_⟩ <;> omega
+  · simp only [h0, Bool.false_eq_true, ↓reduceIte]
+    omega
+
+/-! ### the whole step -/
+
+theorem inArea_spec {inp : Input} {y x : Nat} (h : inArea inp y x = true) :
+    y - inp.off < inp.h ∧ x - inp.off < inp.w := by
+  unfold inArea at h
+  simp only [decide_eq_true_eq] at h
+  omega
+
+/-- The model, with the arms as coded, satisfies the cell property for the region built from those arms —
+    for every input, every `cbca_distance`, both variants of the minimum rule. -/
+theorem aggregate_spec_coded (inp : Input) (dsp : Nat) (hN : nanOutside (inp.plane dsp) = true) (y x : Nat)
+    (hA : inArea inp y x = true) :
+    specCell (inp.plane dsp) (y - inp.off) (x - inp.off) (aggregate inp y x dsp) = true := by
+  unfold aggregate aggregateWith
+  simp only [hA, ↓reduceIte]
+  obtain ⟨hy, hx⟩ := inArea_spec hA
+  exact aggOut_spec (inp.plane dsp) (crossSupport_in_image inp.mr inp.h inp.w inp.dist inp.I _) hN _ _ hy hx
+
+theorem plane_eq_planeRef (inp : Input) (h : inp.mr = .neighbour ∨ 2 ≤ inp.dist) (dsp : Nat) :
+    inp.plane dsp = inp.planeRef dsp := by
+  unfold Input.plane Input.planeRef
+  have eL : inp.crossL = inp.crossLRef := by
+    funext y x; exact crossSupport_eq_crossRef inp.mr inp.h inp.w inp.dist inp.I _ h y x
+  have eR : inp.crossR = inp.crossRRef := by
+    funext k y x; exact crossSupport_eq_crossRef inp.mr inp.h (inp.wr k) inp.dist inp.I _ h y x
+  rw [eL, eR]
+
+/-- **C11, the whole step.**  For every image pair, masks, cost volume, offset, sub-pixel precision, intensity
+    and every `cbca_distance ≥ 2` (every `cbca_distance ≥ 1` once the minimum rule tests the adjacent pixel):
+    every cell of the cost volume after aggregation satisfies the property for the combined support region
+    built from the declarative arms (`armRef`) — provided the input costs are NaN where the disparity has no
+    facing right column, which is what the matching-cost step produces. -/
+theorem cbca_spec (inp : Input) (h : inp.mr = .neighbour ∨ 2 ≤ inp.dist) (dsp : Nat)
+    (hN : nanOutside (inp.planeRef dsp) = true) (y x : Nat) :
+    specAt inp y x dsp (aggregate inp y x dsp) = true := by
+  unfold specAt
+  by_cases hA : inArea inp y x = true
+  · simp only [hA, ↓reduceIte]
+    rw [← plane_eq_planeRef inp h dsp] at hN ⊢
+    exact aggregate_spec_coded inp dsp hN y x hA
+  · simp only [hA, Bool.false_eq_true, ↓reduceIte]
+    unfold aggregate aggregateWith
+    simp only [hA, Bool.false_eq_true, ↓reduceIte]
+    exact valEq_refl _
+
+/-- the same statement about the rule the translator read in `cbca.py` on this run -/
+theorem cbca_spec_source (inp : Input) (hs : inp.mr = Generated.Cbca.minRule)
+    (h : Generated.Cbca.minRule = .neighbour ∨ 2 ≤ inp.dist) (dsp : Nat)
+    (hN : nanOutside (inp.planeRef dsp) = true) (y x : Nat) :
+    specAt inp y x dsp (aggregate inp y x dsp) = true :=
+  cbca_spec inp (hs ▸ h) dsp hN y x
+
+/-- NaN stays NaN; no other cost becomes NaN — every input, no hypothesis -/
+theorem nan_stays (inp : Input) (y x dsp : Nat) (h : (inp.cv y x dsp).isNan = true) :
+    (aggregate inp y x dsp).isNan = true := by
+  unfold aggregate aggregateWith
+  by_cases hA : inArea inp y x = true
+  · simp only [hA, ↓reduceIte]
+    rw [aggOut_isNan]
+    unfold inArea at hA
+    simp only [decide_eq_true_eq] at hA
+    simp only [Input.planeWith]
+    have e1 : y - inp.off + inp.off = y := by omega
+    have e2 : x - inp.off + inp.off = x := by omega
+    rw [e1, e2]; exact h
+  · simp only [hA, Bool.false_eq_true, ↓reduceIte]; exact h
+
+theorem no_new_nan (inp : Input) (y x dsp : Nat) (h : (inp.cv y x dsp).isNan = false) :
+    (aggregate inp y x dsp).isNan = false := by
+  unfold aggregate aggregateWith
+  by_cases hA : inArea inp y x = true
+  · simp only [hA, ↓reduceIte]
+    rw [aggOut_isNan]
+    unfold inArea at hA
+    simp only [decide_eq_true_eq] at hA
+    simp only [Input.planeWith]
+    have e1 : y - inp.off + inp.off = y := by omega
+    have e2 : x - inp.off + inp.off = x := by omega
+    rw [e1, e2]; exact h
+  · simp only [hA, Bool.false_eq_true, ↓reduceIte]; exact h
+
+/-- each disparity plane is aggregated independently of the others: changing the other planes of the input
+    cost volume does not change plane `dsp` of the output -/
+theorem plane_independent (inp : Input) (cv' : Nat → Nat → Nat → Val) (dsp : Nat)
+    (h : ∀ y x, cv' y x dsp = inp.cv y x dsp) (y x : Nat) :
+    aggregate { inp with cv := cv' } y x dsp = aggregate inp y x dsp := by
+  unfold aggregate aggregateWith
+  have e : ({ inp with cv := cv' } : Input).planeWith ({ inp with cv := cv' } : Input).crossL ({ inp with cv := cv' } : Input).crossR dsp
+      = inp.planeWith inp.crossL inp.crossR dsp := by
+    unfold Input.planeWith
+    simp only [h]
+    rfl
+  rw [e]
+  show (if inArea inp y x = true then _ else cv' y x dsp) = _
+  rw [h]
+
+/-! ### the median pre-filter keeps masked pixels masked and nothing else -/
+
+theorem length_insertSorted (a : Rat) : ∀ l, (insertSorted a l).length = l.length + 1 := by
+  intro l
+  induction l with
+  | nil => rfl
+  | cons b t ih =>
+    unfold insertSorted
+    split
+    · simp
+    · simp [ih]
+
+theorem length_sortR : ∀ l, (sortR l).length = l.length := by
+  intro l
+  induction l with
+  | nil => rfl
+  | cons a t ih => simp [sortR, length_insertSorted, ih]
+
+theorem finites_length_pos : ∀ (l : List Val) (v : Val), v ∈ l → v.isNum = true → 0 < (finites l).length := by
+  intro l
+  induction l with
+  | nil => intro v hv; simp at hv
+  | cons a t ih =>
+    intro v hv hnum
+    cases a with
+    | num q => simp [finites]
+    | nan =>
+      simp only [finites]
+      rcases List.mem_cons.mp hv with h | h
+      · subst h; simp [Val.isNum, Val.isNan] at hnum
+      · exact ih v h hnum
+
+theorem nanmedian_isNum (l : List Val) (v : Val) (hv : v ∈ l) (hnum : v.isNum = true) : (nanmedian l).isNum = true := by
+  unfold nanmedian
+  have := finites_length_pos l v hv hnum
+  rw [← length_sortR] at this
+  simp only
+  split
+  · omega
+  · split <;> simp [Val.isNum, Val.isNan]
+
+theorem median3_isNan (H W : Nat) (g : Img) (y x : Nat) : (median3 H W g y x).isNan = (g y x).isNan := by
+  unfold median3
+  cases hg : g y x with
+  | nan => simp [Val.isNan]
+  | num q =>
+    simp only [Val.isNan, Bool.false_eq_true, ↓reduceIte]
+    by_cases hc : 1 ≤ y ∧ y + 1 < H ∧ 1 ≤ x ∧ x + 1 < W
+    · simp only [hc, and_self, ↓reduceIte]
+      have := nanmedian_isNum (window3 g y x) (g y x) (by simp [window3]) (by simp [hg, Val.isNum, Val.isNan])
+      cases hm : nanmedian (window3 g y x) with
+      | nan => simp [hm, Val.isNum, Val.isNan] at this
+      | num _ => rfl
+    · simp only [hc, ↓reduceIte]
+
+/-- a pixel of the filtered left image is non-finite exactly when the mask says it is not valid -/
+theorem filteredL_isNan (inp : Input) (y x : Nat) :
+    (inp.filteredL y x).isNan = (inp.hasMskL && inp.mskL y x != inp.validL) := by
+  unfold Input.filteredL
+  rw [median3_isNan]
+  unfold maskedImg
+  split <;> simp_all [Val.isNan]
+
+/-- the same for the right image; a shifted right image is masked where either source column is -/
+theorem filteredR_isNan (inp : Input) (k y x : Nat) :
+    (inp.filteredR k y x).isNan =
+      if k = 0 then (inp.hasMskR && inp.mskR y x != inp.validR)
+      else (inp.hasMskR && (inp.mskR y x != inp.validR || inp.mskR y (x + 1) != inp.validR)) := by
+  unfold Input.filteredR
+  by_cases hk : k = 0
+  · simp only [hk, ↓reduceIte]
+    rw [median3_isNan]
+    unfold maskedImg
+    split <;> simp_all [Val.isNan]
+  · simp only [hk, ↓reduceIte]
+    rw [median3_isNan]
+    unfold shiftedImg
+    split <;> simp_all [Val.isNan]
+
+/-! ### non-vacuity: a concrete input satisfies the hypotheses, and the aggregated values are non-trivial -/
+
+namespace Example
+
+/-- 3 × 4 image pair with an intensity step, a masked left pixel, two disparities -/
+def img : Nat → Nat → Rat := fun y x => if x < 2 then 10 else (if y = 1 then 31 else 30)
+
+def inp : Input :=
+  { H := 3, W := 4, off := 0
+    imL := img, hasMskL := true, mskL := fun y x => if y = 2 ∧ x = 3 then 1 else 0, validL := 0
+    imR := img, hasMskR := false, mskR := fun _ _ => 0, validR := 0
+    dist := 3, I := 5, subpix := 1
+    disp := fun k => if k = 0 then -1 else 0
+    cv := fun y x k => if k = 0 ∧ x = 0 then .nan else if y = 2 ∧ x = 3 then .nan else .num (y + 2 * x + k : Nat)
+    mr := Generated.Cbca.minRule }
+
+example : (2 : Nat) ≤ inp.dist := by decide
+example : nanOutside (inp.planeRef 0) = true := by decide +kernel
+example : nanOutside (inp.planeRef 1) = true := by decide +kernel
+
+/-- cell (1, 2) at disparity 0: the region has 8 pixels — the one-pixel minimum crosses the intensity step on
+    the left, the masked pixel (2, 3) is left out — and the aggregated cost is their mean 45/8 -/
+example : aggregate inp 1 2 1 = .num (specSum (inp.planeRef 1) 1 2 / specCount (inp.planeRef 1) 1 2) := by decide +kernel
+example : specCount (inp.planeRef 1) 1 2 = 8 ∧ specSum (inp.planeRef 1) 1 2 = 45
+    ∧ aggregate inp 1 2 1 = .num ((45 : Rat) / 8) := by decide +kernel
+example : regionOf (inp.planeRef 1) 1 2 = [(0, 1), (0, 2), (0, 3), (1, 1), (1, 2), (1, 3), (2, 1), (2, 2)] := by decide +kernel
+
+end Example
+
+end Pandora.C11
